@@ -165,8 +165,11 @@ func c10Scenarios(reg lint.Registry, all []seeds.Seed) []c10Scenario {
 			crls = append(crls, &all[i])
 		}
 	}
-	pick := func(i int) *seeds.Seed { return certs[(i*len(certs))/7] }
-	a, b, c := pick(1), pick(3), pick(5)
+	// objects that differ as much as the corpus allows under this registry: greedy choice by new (lint, status)
+	// pairs — a TLS leaf, an out-of-scope certificate, a CA … — so that state keyed by "the last certificate"
+	// or by a scope decision collides between threads
+	div := c10Diverse(reg, certs, 4)
+	a, b, c, d := div[0], div[1], div[2], div[3]
 	names := reg.Names()
 	probe := names[len(names)/2]
 	f1 := lint.FilterOptions{IncludeSources: lint.SourceList{lint.CABFBaselineRequirements, lint.RFC5280}}
@@ -181,10 +184,176 @@ func c10Scenarios(reg lint.Registry, all []seeds.Seed) []c10Scenario {
 		{"lint a; lint c ∥ lint b", [][]c10Op{{opLint("a", a, reg), opLint("c", c, reg)}, {opLint("b", b, reg)}}},
 		{"lint a ∥ lint b ∥ listing", [][]c10Op{{opLint("a", a, reg)}, {opLint("b", b, reg)}, {opListing(reg, probe)}}},
 	}
+	sc = append(sc,
+		c10Scenario{"lint a ∥ lint d", [][]c10Op{{opLint("a", a, reg)}, {opLint("d", d, reg)}}},
+		c10Scenario{"lint b ∥ lint c", [][]c10Op{{opLint("b", b, reg)}, {opLint("c", c, reg)}}},
+		c10Scenario{"lint b; lint a ∥ lint d; lint c", [][]c10Op{{opLint("b", b, reg), opLint("a", a, reg)}, {opLint("d", d, reg), opLint("c", c, reg)}}},
+	)
 	if len(crls) > 0 {
 		sc = append(sc, c10Scenario{"lint crl ∥ lint a ∥ filter", [][]c10Op{{opLint("crl", crls[0], reg)}, {opLint("a", a, reg)}, {opFilter("names", reg, f2)}}})
 	}
 	return sc
+}
+
+// c10Focused builds small scenarios around the fine-grained yields (accesses to possibly-mutated package-level
+// state outside the per-lint loop): which lints reach such a yield is discovered dynamically (every lint alone,
+// one thread, on a diverse object set, reading the scheduling points back); a registry of at most four of
+// them — different yield sites first — keeps an execution at a few dozen points, so that ALL interleavings
+// with two preemptions of every ordered pair of three diverse objects are explored quickly. The broad
+// scenarios over bigger registries follow; with thousands of fine points they may end at the deadline.
+func c10Focused(all []seeds.Seed, rep *core.Report) []c10Scenario {
+	g := lint.GlobalRegistry()
+	var certs []*seeds.Seed
+	for i := range all {
+		if all[i].Kind == seeds.Cert {
+			certs = append(certs, &all[i])
+		}
+	}
+	if len(certs) == 0 {
+		return nil
+	}
+	probe := c10Diverse(g, certs, 7)
+	hits := map[string]map[string]bool{}
+	for _, l := range g.CertificateLints().Lints() {
+		r1, err := g.Filter(lint.FilterOptions{IncludeNames: []string{l.Name}})
+		if err != nil {
+			continue
+		}
+		for _, sd := range probe {
+			op := opLint("probe", sd, r1)
+			x := sched.Execute(func(r *sched.Run) { verifsync.S = r }, func() { verifsync.S = nil }, []func(){func() { op.run() }}, nil, false)
+			for _, p := range x.Points {
+				if strings.HasPrefix(p.Kind, "yield:") && !strings.HasPrefix(p.Kind, "yield:resultset.go") {
+					if hits[l.Name] == nil {
+						hits[l.Name] = map[string]bool{}
+					}
+					hits[l.Name][p.Kind] = true
+				}
+			}
+		}
+	}
+	if len(hits) == 0 {
+		return nil
+	}
+	var names []string
+	for n := range hits {
+		names = append(names, n)
+	}
+	sort.Strings(names)
+	seen := map[string]bool{}
+	var chosen []string
+	for len(chosen) < 4 {
+		best, bestNew := "", -1
+		for _, n := range names {
+			k := 0
+			for s := range hits[n] {
+				if !seen[s] {
+					k++
+				}
+			}
+			used := false
+			for _, c := range chosen {
+				if c == n {
+					used = true
+				}
+			}
+			if !used && k > bestNew {
+				best, bestNew = n, k
+			}
+		}
+		if best == "" {
+			break
+		}
+		chosen = append(chosen, best)
+		for s := range hits[best] {
+			seen[s] = true
+		}
+	}
+	reg, err := g.Filter(lint.FilterOptions{IncludeNames: chosen})
+	if err != nil {
+		return nil
+	}
+	rep.Note("focused scenarios: %d lints reach fine-grained yields (%d sites); registry %v", len(hits), len(seen), chosen)
+	// objects: diverse under the focused registry AND diverse under the global registry (scope decisions,
+	// key types, CA vs leaf … show up there): state keyed by "the last certificate" or by a scope decision gives
+	// a visibly wrong answer only between objects on different sides of such a divide
+	objs := c10Diverse(reg, certs, 3)
+	for _, extra := range probe {
+		dup := false
+		for _, o := range objs {
+			if o == extra {
+				dup = true
+			}
+		}
+		if !dup {
+			objs = append(objs, extra)
+		}
+	}
+	for i, o := range objs {
+		rep.Note("focused object o%d = %s: %s", i, o.Name, strings.ReplaceAll(opLint("o", o, reg).run(), "\n", " "))
+	}
+	var sc []c10Scenario
+	for i, a := range objs {
+		for j, b := range objs {
+			sc = append(sc, c10Scenario{fmt.Sprintf("focused: lint o%d ∥ lint o%d", i, j), [][]c10Op{{opLint(fmt.Sprintf("o%d", i), a, reg)}, {opLint(fmt.Sprintf("o%d", j), b, reg)}}})
+		}
+	}
+	sc = append(sc, c10Scenario{"focused: lint o0 ∥ lint o1 ∥ lint o2", [][]c10Op{{opLint("o0", objs[0], reg)}, {opLint("o1", objs[1], reg)}, {opLint("o2", objs[2], reg)}}})
+	return sc
+}
+
+// c10Diverse picks n certificates greedily by the number of new (lint, status) pairs they reach under reg.
+func c10Diverse(reg lint.Registry, certs []*seeds.Seed, n int) []*seeds.Seed {
+	type vec map[string]bool
+	vs := make([]vec, len(certs))
+	for i, sd := range certs {
+		vs[i] = vec{}
+		o, err := zl.Parse(sd.Kind, sd.DER)
+		if err != nil {
+			continue
+		}
+		rs, p := zl.Lint(o, reg)
+		if p != nil || rs == nil {
+			continue
+		}
+		for name, r := range rs.Results {
+			if r != nil {
+				vs[i][name+"|"+r.Status.String()] = true
+			}
+		}
+	}
+	seen := vec{}
+	var out []*seeds.Seed
+	used := map[int]bool{}
+	for len(out) < n {
+		best, bestNew := -1, -1
+		for i := range certs {
+			if used[i] {
+				continue
+			}
+			k := 0
+			for p := range vs[i] {
+				if !seen[p] {
+					k++
+				}
+			}
+			if k > bestNew {
+				best, bestNew = i, k
+			}
+		}
+		if best < 0 {
+			break
+		}
+		used[best] = true
+		for p := range vs[best] {
+			seen[p] = true
+		}
+		out = append(out, certs[best])
+	}
+	for len(out) < n {
+		out = append(out, certs[len(out)%len(certs)])
+	}
+	return out
 }
 
 func checkC10(ctx *core.Ctx, rep *core.Report) {
@@ -195,7 +364,8 @@ func checkC10(ctx *core.Ctx, rep *core.Report) {
 	}
 	rep.Note("shared registry: %s", rdesc)
 	all := seeds.Load()
-	scs := c10Scenarios(reg, all)
+	// focused scenarios first: they are small and must complete before any internal deadline
+	scs := append(c10Focused(all, rep), c10Scenarios(reg, all)...)
 	bound := argInt(ctx, "bound", 2)
 	coarseBound := argInt(ctx, "coarse", 1)
 	rlockCoarse := ctx.Args["rlock_coarse"] == "1"
